@@ -20,9 +20,8 @@ run_demo() { (cd "$WT" && timeout 900 cargo test --offline -p "$CRATE" --test "$
 mkdir -p "$(dirname "$WT/$DEMO")"
 [ -e "$WT/$DEMO" ] && { echo "RESULT $(basename $(dirname $M))/$(basename $M) demo path $DEMO already exists in the tree"; exit 2; }
 cp "$M/demo.rs" "$WT/$DEMO"
-run_demo; DC=$?
 touch "$WT/precis-core/build.rs" "$WT/precis-profiles/build.rs"   # the build scripts do not track resources/
-run_demo >/dev/null 2>&1; DC=$?
+run_demo; DC=$?
 git -C "$WT" apply "$M/patch.diff" || { echo "RESULT $(basename $(dirname $M))/$(basename $M) patch does not apply"; exit 2; }
 touch "$WT/precis-core/build.rs" "$WT/precis-profiles/build.rs"
 run_demo; DP=$?
